@@ -57,6 +57,11 @@ def gen_instance(rng):
     eps = float(rng.choice([0.05, 0.1, 0.2, 0.4]))
     delta = float(rng.choice([0.05, 0.1, 0.2, 0.3]))
     nv = float(rng.choice([0.0025, 0.01, 0.04, 0.25, 1.0, 2.25]))
+    if rng.random() < 0.2:
+        # noise variances far above 1 (the property quantifies over them): affordable with a large eps
+        nv = float(rng.choice([9.0, 25.0, 100.0]))
+        eps = float(rng.choice([2.0, 5.0, 10.0]))
+        deg = float(rng.choice([60, 90, 120]))
     if deg < 30:
         # narrow cones: the ordering complexity beta = 1/sin(theta) is large and L grows with
         # beta^2; keep the run affordable with a large eps and little noise
@@ -222,6 +227,8 @@ def run_check(prop, tier, master, n_runs=None, budget_s=None):
     if summ_a["decided_judgements"].get("C08", 0) == 0 or len(insts) < 4:
         vac = "no P judged or fewer than 4 Monte-Carlo instances"
     errs = err_a + err_b
-    if not harness_ok:
+    if not harness_ok and not flagged:
+        # (with a flagged instance the disagreement is a symptom of the violation -- e.g. the problem
+        # does not deliver the configured noise -- and the VIOLATION is what gets reported)
         errs = errs + [{"exc": "Monte-Carlo harness disagrees with the closed-form failure probability by more than 6 sigma", "tb": ""}]
     core.finish("C08", tier, master, t0, coverage, out_viol, errs, ["numpy's Gaussian generator is correct", "failure = returned set differs from {better design} on a two-design instance with gap eps(1+eta) > eps", "Monte-Carlo detects failure rates well above delta only"], vac)
